@@ -402,6 +402,19 @@ class Machine(object):
             # evaluate the promoted body (straight-line)
             key = (c.get("promoted_of") or fr.key[0], c["promoted"])
             return self.eval_promoted(key)
+        if "enum_array" in c:
+            # a constant array of field-less enum values (e.g. `const ALL: [Kind; 4]`)
+            ty = c["enum_array_of"]
+            elems = []
+            for nm in c["enum_array"]:
+                idx = None
+                for v in (self.facts.adts.get(ty) or {}).get("variants", []):
+                    if v["name"] == nm:
+                        idx = v["index"]
+                if idx is None:
+                    raise Unsupported("enum array constant of %s: unknown variant %s" % (ty, nm))
+                elems.append(Cell(AdtVal(ty, idx, {}, None, nm)))
+            return VecVal(elems)
         if "bool" in c:
             return Const("bool", c["bool"])
         if "str" in c:
@@ -961,6 +974,69 @@ class Machine(object):
                 return finish(r)
             # undecided: pure opaque value (its variant is forked on when it is matched)
             return finish(Opaque(("call", name, tuple(lab(a) for a in args)), t["dest"]["ty"]))
+        if "core::tuple::<impl std::cmp::PartialOrd for (U, T)>::" in name and name.rsplit("::", 1)[1] in ("lt", "le", "gt", "ge") and len(args) == 2:
+            # lexicographic comparison of pairs, expanded into comparisons of the components (forks like the hand-written form)
+            op = name.rsplit("::", 1)[1]
+
+            def comp(v, i):
+                v = deref_val(v)
+                if isinstance(v, AdtVal) and i in v.fields:
+                    return deref_val(v.fields[i].val)
+                return Opaque(join_label(lab(v), str(i)), None)
+            a0, a1, b0, b1 = comp(args[0], 0), comp(args[0], 1), comp(args[1], 0), comp(args[1], 1)
+            strict = "lt" if op in ("lt", "le") else "gt"
+            first = self.binop(strict.capitalize(), a0, b0)
+            same = self.binop("Eq", a0, b0)
+            second = self.binop(op.capitalize(), a1, b1)
+            if isinstance(first, Const) or isinstance(same, Const):
+                if isinstance(first, Const) and first.v:
+                    return finish(Const("bool", True))
+                if isinstance(same, Const) and isinstance(first, Const):
+                    return finish(second if same.v else Const("bool", False))
+                raise Unsupported("tuple comparison with partially constant components")
+            s1 = copy.deepcopy(st)
+            d1 = self.find_copied_cell(st, s1, dest)
+            d1.val = Const("bool", True)
+            s1.conds.append((first.label, True))
+            s1.frames[-1].bb = target
+            s3 = copy.deepcopy(st)
+            d3 = self.find_copied_cell(st, s3, dest)
+            d3.val = Const("bool", False)
+            s3.conds.append((first.label, False))
+            s3.conds.append((same.label, False))
+            s3.frames[-1].bb = target
+            st.conds.append((first.label, False))
+            st.conds.append((same.label, True))
+            dest.val = second
+            fr.bb = target
+            return [s1, s3]
+        if d in ("std::option::Option::<&T>::cloned", "std::option::Option::<&T>::copied", "std::option::Option::<&mut T>::cloned", "std::option::Option::<&mut T>::copied"):
+            # Option<&T> -> Option<T>: same presence, the payload is a copy of the referent (labels are kept)
+            ov = deref_val(args[0])
+            if isinstance(ov, AdtVal) and ov.variant == 0:
+                return finish(AdtVal("std::option::Option", 0, {}, None, "None"))
+            if isinstance(ov, AdtVal) and ov.variant == 1:
+                return finish(AdtVal("std::option::Option", 1, {0: Cell(copy_val(deref_val(self.field_cell(ov, 0, None, None).val)))}, None, "Some"))
+            if isinstance(ov, Opaque):
+                return finish(Opaque(ov.label, t["dest"]["ty"]))
+        if d == "std::option::Option::<T>::unwrap_or":
+            ov = deref_val(args[0])
+            if isinstance(ov, AdtVal) and ov.variant == 0:
+                return finish(args[1])
+            if isinstance(ov, AdtVal) and ov.variant == 1:
+                return finish(self.field_cell(ov, 0, None, None).val)
+            if isinstance(ov, Opaque):
+                # fork on presence, like a match
+                s2 = copy.deepcopy(st)
+                d2 = self.find_copied_cell(st, s2, dest)
+                a2 = self.find_copied_value(st, s2, args[1]) if hasattr(self, "find_copied_value") else copy.deepcopy(args[1])
+                d2.val = a2
+                s2.conds.append((("variant", ov.label), "None"))
+                s2.frames[-1].bb = target
+                st.conds.append((("variant", ov.label), "Some"))
+                dest.val = Opaque(join_label(ov.label, "Some.0"))
+                fr.bb = target
+                return [s2]
         if d in ("std::option::Option::<T>::map", "std::option::Option::<T>::and_then"):
             ov = deref_val(args[0])
             mode = "option_" + d.rsplit("::", 1)[1]
